@@ -63,6 +63,12 @@ class ScriptedSimulation(Simulation):
         probe.STATE.log.append((self.currentTime, tag))
 
     # -- Simulation interface ------------------------------------------------------
+    def setup(self):
+        # simulator-specific initialisation (connecting, loading a world) happens before the
+        # objects are created, as in the real interfaces
+        self._visit("setup")
+        super().setup()
+
     def createObjectInSimulator(self, obj):
         self._log(f"create:{getattr(obj, 'name', '?')}")
         self._visit("create")
